@@ -62,6 +62,12 @@ func checkC08(c *Check) {
 		}
 	}
 	truncationRules(c, "O-C08.3")
+	chainWriterRules(c)
+	// every extended attribute travels with its key, value and criticality: the
+	// writer marks exactly the flagged keys (O-C13.6), the reader accepts a
+	// critical label iff the attribute is present (O-C13.4) and returns key,
+	// value and criticality of every surviving header (O-C13.3)
+	c.floor("attribute round-trip rules (shared with C13)", 10, shareRules(c, checkC13, []string{"O-C13.3", "O-C13.4", "O-C13.6"}, "O-C08.5", "attributes: "))
 	opaquePayloadOnVerify(c, fmts)
 	// (2) external signers
 	remoteSigners(c)
@@ -382,5 +388,136 @@ func opaquePayloadOnVerify(c *Check, fmts []format) {
 			}
 		}
 		c.floor("JWT parse calls in JWS Verify", 1, n)
+	}
+}
+
+// chainWriterRules: O-C08.3 for the certificate chain. The writer stores the
+// signer's chain complete, in order and in the one form the reader decodes (a
+// list with one raw certificate per element, also for a chain of one).
+func chainWriterRules(c *Check) {
+	rawCopy := func(pg *PG, list, chain string) {
+		slot := list + "[rk(" + chain + ")]"
+		good := false
+		var det []string
+		for _, s := range pg.States {
+			for _, e := range s.Out {
+				for _, l := range e.Labels {
+					if (l.Kind == "store" || l.Kind == "lstore") && strings.HasPrefix(l.Key, list+"[") {
+						if l.Key == slot && l.T2 != nil && l.T2.Key() == "re("+chain+").Raw" {
+							good = true
+						} else {
+							det = append(det, c.P.pos(l.Node.Pos)+": "+l.String())
+						}
+					}
+				}
+			}
+		}
+		c.add("O-C08.3", shortCallee(pg.G.Insts[0].Name)+": element i of the written chain is certificate i's raw bytes", "the only stores into the written list put re(chain).Raw at the range key of the chain", good && len(det) == 0, "", det...)
+		c.perIteration(pg, "O-C08.3", shortCallee(pg.G.Insts[0].Name)+": every certificate of the chain is written", "each certificate's raw bytes are stored at its own index", chain, StoreTo(slot))
+	}
+	// COSE: the function that stores under label 33 (x5chain)
+	ncose := 0
+	for _, fs := range c.P.productFuncs() {
+		if !strings.HasSuffix(fs.Pkg.PkgPath, "/signature/cose") {
+			continue
+		}
+		name := c.P.abbrev(fs.Obj.FullName())
+		writes := false
+		ast.Inspect(fs.Decl.Body, func(n ast.Node) bool {
+			if as, ok := n.(*ast.AssignStmt); ok {
+				for _, l := range as.Lhs {
+					if ix, ok := ast.Unparen(l).(*ast.IndexExpr); ok {
+						if tv := fs.Pkg.TypesInfo.Types[ix.Index]; tv.Value != nil && tv.Value.String() == "33" {
+							writes = true
+						}
+					}
+				}
+			}
+			return true
+		})
+		if !writes {
+			continue
+		}
+		pg := c.skeleton(name)
+		if pg == nil {
+			continue
+		}
+		ncose++
+		var vals []string
+		var chain string
+		for _, s := range pg.States {
+			for _, e := range s.Out {
+				for _, l := range e.Labels {
+					if (l.Kind == "store" || l.Kind == "lstore") && strings.HasSuffix(l.Key, "[33]") && l.T2 != nil {
+						vals = append(vals, l.T2.Key())
+						if t := l.T2; t.Op == "call" && t.Name == "make" && len(t.Args) >= 2 && isLen(t.Args[1]) {
+							chain = t.Args[1].Args[0].Key()
+						}
+					}
+				}
+			}
+		}
+		vals = dedupe(sortedCopy(vals))
+		list := "make([]any, len(" + chain + "))"
+		okForm := len(vals) == 1 && chain != "" && vals[0] == list && strings.Contains(chain, "CertificateChain(")
+		c.add("O-C08.3", "COSE: x5chain is always written as the list of the signer's chain", "every store under label 33 writes one value: a []any with one element per certificate of signer.CertificateChain() (also for a chain of one, which the reader only decodes in this form)", okForm, c.P.pos(fs.Decl.Pos()), vals...)
+		if okForm {
+			var target string
+			for _, s := range pg.States {
+				for _, e := range s.Out {
+					for _, l := range e.Labels {
+						if (l.Kind == "store" || l.Kind == "lstore") && strings.HasSuffix(l.Key, "[33]") {
+							target = l.Key
+						}
+					}
+				}
+			}
+			c.mustPass(pg, "O-C08.3", "COSE: x5chain written on every path", "the unprotected header generator returns", pg.Returns(), StoreTo(target))
+			rawCopy(pg, list, chain)
+		}
+	}
+	c.floor("COSE x5chain writers", 1, ncose)
+	// JWS: generateJWS returns an envelope whose Header.CertChain is the list of raw certificates
+	for _, fs := range c.P.productFuncs() {
+		if !strings.HasSuffix(fs.Pkg.PkgPath, "/signature/jws") {
+			continue
+		}
+		sig := fs.Obj.Type().(*types.Signature)
+		if sig.Results().Len() != 2 || !strings.HasSuffix(c.P.typeStr(sig.Results().At(0).Type()), "jwsEnvelope") {
+			continue
+		}
+		name := c.P.abbrev(fs.Obj.FullName())
+		pg := c.skeleton(name)
+		if pg == nil {
+			continue
+		}
+		ok := returnsWhere(pg, func(s *PState) bool { return retNilErr(s, 1) })
+		chainParam := paramOfType(pg, "[]*crypto/x509.Certificate")
+		good := len(ok) > 0 && chainParam != ""
+		list := "make([][]byte, len(" + chainParam + "))"
+		var det []string
+		for _, s := range ok {
+			t := s.Ret[0].T
+			if t.Op == "addr" {
+				t = t.Args[0]
+			}
+			h := structGet(t, "Header")
+			var cc *Term
+			if h != nil {
+				cc = structGet(h, "CertChain")
+			}
+			if cc == nil || cc.Key() != list {
+				good = false
+				if cc != nil {
+					det = append(det, "CertChain: "+cc.Key())
+				} else {
+					det = append(det, "CertChain not set in the returned envelope")
+				}
+			}
+		}
+		c.add("O-C08.3", "JWS: x5c is the list of the signer's chain", "the generated envelope's Header.CertChain is a [][]byte with one element per certificate handed in", good, c.P.pos(fs.Decl.Pos()), det...)
+		if good {
+			rawCopy(pg, list, chainParam)
+		}
 	}
 }
